@@ -179,7 +179,9 @@ class AABB:
         if b1.dim != b2.dim: 
             raise AABB.IncompatibleDimensionError(f"Bounding boxes have different dimensions ({b1.dim} and {b2.dim}): intersection impossible")
     
-        predicates = [b1.mini[i] <= b2.maxi[i] and b1.maxi[i] >= b2.mini[i] for i in range(b1.dim)]
+        # the overlap [max of the minima, min of the maxima] must have a non-negative extent in every dimension
+        # (this also answers False when one of the boxes is empty)
+        predicates = [max(b1.mini[i], b2.mini[i]) <= min(b1.maxi[i], b2.maxi[i]) for i in range(b1.dim)]
         return np.all(predicates)
     
     @staticmethod
